@@ -19,6 +19,8 @@ def special_grammars(rnd):
         a, b, c = texts[i:i + 3]
         out.append([("seq", [("alt", [L(a, 'descr "%s"' % b), L(b), L(c, "back\\slash")]), w("--o=", [a, "v"]), ("opt", L("tail"))])])
     out.append([("seq", [C('printf \'%s\\n\' "a b" \\\\ {x}'), ("sub", [L("--c="), C("echo \"q\"")]), L("z")])])
+    # a backslash directly before a quote and a backslash as the last character of a command, at top level and inside a word
+    out.append([("seq", [C('echo "a\\"b"'), ("sub", [L("--tag="), C('git tag | sed "s/\\"//g"')]), ("opt", C("printf x\\"))])])
     out.append([("opt", ("seq", [L("a"), ("opt", L("b"))]))])
     out.append([("many", ("alt", [w("--x=", ["1", "2"]), w("--y=", ["3", "4"]), w("--z=", ["5", "6", "7"])]))])
     out.append([("seq", [("fb", [L("f0"), L("f1", "lvl"), R("UNDEF")]), ("sub", [L("-k"), R("UNDEF2")])])])
@@ -100,7 +102,10 @@ def run(tier):
         r["obs"]["base"] = BASE[r["shell"]]
         r["_dfa"], r["_regex"] = o.get("dfa", ""), o.get("regex", "")
         good.append(r)
-    strip = [{"id": r["id"], "shell": r["shell"], "ast": r["ast"], "obs": {k: r["obs"][k] for k in ("verdict", "min", "minsubs", "dfa", "regex", "base")}} for r in good]
+    for r in good:      # command texts of the automaton (main and within-word), as code points
+        r["obs"]["cmdcps"] = sorted({tuple(ord(ch) for ch in t["l"]["t"]) for d in [r["obs"]["min"]] + r["obs"]["minsubs"] for t in d["tr"] if t["l"]["k"] in ("cmd", "compadd")})
+        r["obs"]["cmdcps"] = [list(x) for x in r["obs"]["cmdcps"]]
+    strip = [{"id": r["id"], "shell": r["shell"], "ast": r["ast"], "obs": {k: r["obs"][k] for k in ("verdict", "min", "minsubs", "dfa", "regex", "base", "cmdcps")}} for r in good]
     res = core.run_tlc_sharded("DotCheck.tla", "DotCheck.cfg", strip, shards=12, workers=2, prefix="dot", timeout=3000)
     byid = {r["id"]: r for r in good}
 
@@ -113,7 +118,7 @@ def run(tier):
         r = byid[d["id"]]
         for p in sorted(d["problems"]):
             sig = {"kind": p, "base": BASE[r["shell"]] if p.startswith("dfa_within") or p == "dfa_main_automaton_not_shown" else "any"}
-            if p.endswith("not_valid_dot") or p == "regex_item_missing" or p == "dfa_main_automaton_not_shown":
+            if p.endswith("not_valid_dot") or p in ("regex_item_missing", "regex_command_missing") or p == "dfa_main_automaton_not_shown":
                 sig["chars"] = chars(r)
             err = r["obs"]["dfa"]["error"] if p.startswith("dfa_file") else (r["obs"]["regex"]["error"] if p.startswith("regex_file") else "")
             v.mismatch(sig, "%s [%s]: %s %s" % (r["usage"].strip().replace("\n", " "), r["shell"], p, err),
@@ -133,6 +138,7 @@ def run(tier):
     rc = v.finish()
     core.write_evidence("C16", tier, "model_checking", cov,
                         ["Graphviz is not installed: the files are read by a strict reader written from the DOT grammar (lib/dotread.py)",
-                         "an edge label is required to contain the literal's text after DOT decoding; how descriptions, levels and commands are rendered is not prescribed",
+                         "an edge label of --dfa is required to contain the literal's text after DOT decoding, a node label of --regex the literal's or the command's text; how "
+                         "descriptions and levels are rendered is not prescribed",
                          "files are written through the in-process front end (main.rs compiled into the recorder)"], time.time() - t0, len(v.violations))
     return rc
